@@ -211,7 +211,7 @@ def corr(ctx):
         ctx.count("bp_%s" % name)
     # tree exactness needs enough iterations: make sure one configuration per tree code ran
     # ---------------- soft Reed-Muller
-    for (r_, m) in ((1, 3), (1, 4), (2, 4), (1, 5), (2, 5)) if ctx.thorough else ((1, 3), (2, 4), (1, 5)):
+    for (r_, m) in ((1, 3), (2, 3), (1, 4), (2, 4), (3, 4), (1, 5), (2, 5), (3, 5)) if ctx.thorough else ((1, 3), (2, 3), (2, 4), (3, 4), (1, 5)):
         enc = E.ReedMullerCodeEncoder(r_, m)
         dec = D.ReedMullerDecoder(enc, input_type="soft")
         k = enc.code_dimension
@@ -221,6 +221,19 @@ def corr(ctx):
             out = dec((1 - 2 * X) * a)
             ok = tuple(out.shape) == (len(msgs), k) and bool((out == torch.tensor(msgs, dtype=out.dtype)).all())
             ops.append(Op("wag -", "-", nontrivial=False, info={"site": "fec.decoders:ReedMullerDecoder.soft", "config": {"r": r_, "m": m, "magnitude": a}}, prop_ok=ok))
+        # single weak wrong-sign perturbations (|l_p| = 0.05 |l|, all others >= 1): the soft decoder still returns the message
+        idxs = list(range(len(msgs))) if len(msgs) <= 8 else rng.sample(range(len(msgs)), 8)
+        n_ = enc.code_length
+        rows, want = [], []
+        for mi in idxs:
+            for p_ in (range(n_) if ctx.thorough or n_ <= 16 else rng.sample(range(n_), 12)):
+                l = [(1 - 2 * int(b)) * rng.uniform(1.0, 4.0) for b in X[mi].tolist()]
+                l[p_] = -l[p_] * 0.05
+                rows.append(l); want.append(msgs[mi])
+        out = dec(torch.tensor(rows, dtype=torch.float32))
+        badrows = [i for i in range(len(rows)) if bstr(out[i].tolist()) != bstr(want[i])]
+        ops.append(Op("wag -", "-", nontrivial=False, info={"site": "fec.decoders:ReedMullerDecoder.soft", "config": {"r": r_, "m": m, "case": "single weak wrong-sign perturbation", "failures": len(badrows), "of": len(rows),
+                      "first": ({"llr": rows[badrows[0]], "sent": bstr(want[badrows[0]]), "got": bstr(out[badrows[0]].tolist())} if badrows else None)}}, prop_ok=not badrows))
         ctx.count("soft_rm")
     return ops
 
